@@ -518,6 +518,55 @@ def _seg_bits(s):
     return None, None
 
 
+REACH = {'branch': 4094, 'jal': 1048574, 'cb': 254, 'cj': 2046}
+
+
+def reach_cause(pl, t, b, mdl, rc):
+    """why a program accepted without -c is refused with -c.  'transfer-out-of-reach-in-compressed-layout':
+    the refused line is a pc-relative transfer and, in the layout the compressed program really has
+    (measured on the pristine code with that line replaced by an incompressible instruction of the same
+    size and a label put in front of it), its target is farther away than the instruction can reach -
+    the refusal is correct for that layout; compression moved alignment padding.  Anything else: None."""
+    try:
+        lineno = rc[3][1]
+        lines = t.text.split('\n')
+        src = lines[lineno - 1]
+        head = src.split()[0].lower()
+        m = classify_transfer(src)
+        if m is None:
+            return None
+        kind, target = m
+        probe = lines[:lineno - 1] + ['HERE__:', 'xor x5 x6 x7'] + lines[lineno:]
+        rr = pl.real_assemble('\n'.join(probe), b['notes']['constants'], True, b['notes']['markers'], mdl)
+        if rr[0] != 'ok' or target not in rr[2]:
+            return None
+        dist = rr[2][target] - rr[2]['HERE__']
+        if dist > REACH[kind] or dist < -REACH[kind] - 2:
+            return 'transfer-out-of-reach-in-compressed-layout'
+    except Exception:
+        return None
+    return None
+
+
+def classify_transfer(src):
+    """(reach class, target label) of a literal 4-byte pc-relative transfer line, else None"""
+    toks = src.replace(',', ' ').split()
+    head = toks[0].lower()
+    if head in ('beq', 'bne', 'blt', 'bge', 'bltu', 'bgeu') and len(toks) == 4:
+        return 'branch', toks[3]
+    if head == 'jal' and len(toks) == 3:
+        return 'jal', toks[2]
+    if head in ('beqz', 'bnez', 'blez', 'bgez', 'bltz', 'bgtz') and len(toks) == 3:
+        return 'branch', toks[2]
+    if head in ('bgt', 'ble', 'bgtu', 'bleu') and len(toks) == 4:
+        return 'branch', toks[3]
+    if head == 'j' and len(toks) == 2:
+        return 'jal', toks[1]
+    if head == 'jal' and len(toks) == 2:
+        return 'jal', toks[1]
+    return None
+
+
 def product_task(prop, name, srclines, gap_bits=23, k_bits=34, max_paths=600):
     t = Template(name, srclines)
     tag = 'product:%s' % name
@@ -560,6 +609,13 @@ def product_task(prop, name, srclines, gap_bits=23, k_bits=34, max_paths=600):
         if not check(ro, rc):
             res.inconc('%s: counterexample %r for %s did not reproduce (%r / %r)' % (tag, inp, kind, ro[:1] + ro[2:3], rc[:1] + rc[2:3]))
             return
+        site = dict(harness='product', kind=kind)
+        if kind == 'compress-breaks-build':
+            site['cause'] = reach_cause(pl, t, b, mdl, rc)
+            kn = common.match_known(common.load_known(prop), site)
+            if kn is not None:
+                res['known'].append(dict(id=kn.get('id'), what=kn.get('what'), instance='template %s, inputs %r' % (name, inp)))
+                return
         path = common.write_replay(prop, tag + '_' + kind[:30], dict(
             kind='program', property=prop, source=t.text,
             constants={k: v for k, v in inp.items() if k in b['notes']['constants']},
